@@ -115,12 +115,14 @@ class C14(Check):
     rule = ("one evaluation = one configuration (strategy, options, environment, final point limit): an uninterrupted twin run yields evaluation "
             "indices 0..m; then EVERY k < m is used as crash point: stop after evaluation k by the limit mechanism, apply the fault kind drawn for "
             "(configuration, k) from {continue, save+continue, save+crash+restore, torn/short/enospc/lost save + continue live, two-stage stop, "
-            "restore in a fresh interpreter (thorough)}, run to the final limit and compare structure, scheme, result and point count with the twin. "
+            "continuation through a new driver call handed the old container, restore in a fresh interpreter (thorough)}; a quarter of the "
+            "first legs ask for re-evaluation at their end; run to the final limit and compare structure, scheme, result and point count with the twin. "
             "A state is (configuration class, crash point, fault kind, final structure); distinct_nontrivial counts distinct such tuples")
     expected_probes = ["crash_point", "restored_equals_saved"]
     assumptions = ["pickle has no integrity check and no property promises one: bit flips inside a successfully written file are not injected",
                    "a failed save or a failed restore must fail loudly and leave the live instance untouched"]
     excluded_configs = ["cell strategy: driven for stop / save / restore / continue, but without the interpolation query (not offered by this strategy)",
+                        "crash points at which the first leg's re-evaluation itself evaluated further points (extend-split version 2): skipped and counted",
                         "extend-split: automatic decision with lmin == lmax (known finding of C07)"]
 
     def setup(self):
